@@ -340,31 +340,37 @@ def population_task(task, wdir, res):
         def change(u):
             r = rng.random()
             ref = u.uid if re.fullmatch("[A-Za-z0-9_]+", u.uid) else json.dumps(u.uid, ensure_ascii=False)
-            t = rng.choice(TYPES)
+            # one or several event types in one statement (the order of the list must not matter)
+            ts = rng.sample(TYPES, rng.choice([1, 1, 2, len(TYPES)]))
+            tl = ", ".join(ts)
             if r < 0.45:
                 perms = rng.choice(["READ", "WRITE", "READ, WRITE"])
-                cmd = f"GRANT {perms} ON {t} TO {ref}"
+                cmd = f"GRANT {perms} ON {tl} TO {ref}"
                 k, _, rep = admin(cmd, expect_ok=False)
                 if k == "ok":
-                    p = u.perms.get(t)
-                    if p in (None, "unspecified"):
-                        p = {"read": False, "write": False}
-                    u.perms[t] = {"read": p["read"] or "READ" in perms, "write": p["write"] or "WRITE" in perms}
+                    for t in ts:
+                        p = u.perms.get(t)
+                        if p in (None, "unspecified"):
+                            p = {"read": False, "write": False}
+                        u.perms[t] = {"read": p["read"] or "READ" in perms, "write": p["write"] or "WRITE" in perms}
             elif r < 0.8:
                 perms = rng.choice(["READ", "WRITE", "READ, WRITE", ""])
-                cmd = f"REVOKE {perms + ' ' if perms else ''}ON {t} FROM {ref}"
+                cmd = f"REVOKE {perms + ' ' if perms else ''}ON {tl} FROM {ref}"
                 k, _, rep = admin(cmd, expect_ok=False)
                 if k == "ok":
-                    p = u.perms.get(t)
-                    if p is None or p == "unspecified":
-                        u.perms[t] = "unspecified" if (u.roles & (ROLE_READ | ROLE_WRITE)) else {"read": False, "write": False}
-                    else:
-                        u.perms[t] = {"read": p["read"] and not ("READ" in perms or not perms), "write": p["write"] and not ("WRITE" in perms or not perms)}
+                    for t in ts:
+                        p = u.perms.get(t)
+                        if p is None or p == "unspecified":
+                            u.perms[t] = "unspecified" if (u.roles & (ROLE_READ | ROLE_WRITE)) else {"read": False, "write": False}
+                        else:
+                            u.perms[t] = {"read": p["read"] and not ("READ" in perms or not perms), "write": p["write"] and not ("WRITE" in perms or not perms)}
             else:
                 cmd = f"REVOKE KEY {ref}"
                 k, _, rep = admin(cmd, expect_ok=False)
                 if k == "ok":
                     u.active = False
+            if len(ts) > 1:
+                res.add_set("multi_type_statements", cmd.split()[0])
             return cmd, rep
 
         for step in range(task["steps"]):
